@@ -6,6 +6,7 @@ every one of them must end exactly as it does on the unchanged tree (exit 0).  A
 analysis does not understand the rewritten construct - both are failures of the machinery, not of the change.
 
   python -m sa.benign [names...] [--jobs N] [--own]      (--own: only the check of the property the change was written for)
+  python -m sa.benign --checks C13,C25 [--touching <path fragment>]   only these checks, only patches touching that path; result files are not rewritten
 """
 from __future__ import annotations
 
@@ -62,6 +63,9 @@ def main(argv: List[str]) -> int:
         jobs = int(argv[argv.index('--jobs') + 1])
     names = [a for a in argv if not a.startswith('--') and not a.isdigit()]
     own = '--own' in argv
+    only = argv[argv.index('--checks') + 1].split(',') if '--checks' in argv else None
+    touching = argv[argv.index('--touching') + 1] if '--touching' in argv else None
+    names = [a for a in names if a not in (','.join(only or []), touching)]
     items = []
     for prop in sorted(os.listdir(BENIGN)) if os.path.isdir(BENIGN) else []:
         pd = os.path.join(BENIGN, prop)
@@ -72,7 +76,9 @@ def main(argv: List[str]) -> int:
             if not os.path.exists(os.path.join(d, 'patch.diff')) or (names and name not in names and prop not in names):
                 continue
             meta = json.load(open(os.path.join(d, 'meta.json'))) if os.path.exists(os.path.join(d, 'meta.json')) else {}
-            props = [prop] if own else claimed()
+            props = only if only else [prop] if own else claimed()
+            if touching and touching not in open(os.path.join(d, 'patch.diff')).read():
+                continue
             items.append({'name': name, 'property': prop, 'dir': d, 'props': [p for p in props if p in claimed()], 'summary': meta.get('summary', ''), 'kind': meta.get('kind', '')})
     with ThreadPoolExecutor(jobs) as ex:
         res = list(ex.map(run_one, items))
@@ -80,6 +86,9 @@ def main(argv: List[str]) -> int:
     for r in res:
         extra = ','.join([f'{p}=1' for p in r.get('alarms', [])] + [f'{p}=2' for p in r.get('errors', [])])
         print(f"{r['status']:7} {r['name']:12} {extra:16} {r['summary'][:120]}")
+        if only:
+            bad += r['status'] != 'SILENT'
+            continue
         with open(os.path.join(r['dir'], 'result.txt'), 'w') as f:
             f.write(f"status: {r['status']}\nchecks run: {' '.join(r['props'])}\n")
             for p, o in r.get('outputs', {}).items():
@@ -89,7 +98,7 @@ def main(argv: List[str]) -> int:
         if r['status'] != 'SILENT':
             bad += 1
     print(f'behaviour-preserving changes: {len(res)}, all checks silent on {len(res) - bad}, not silent on {bad}')
-    if not names and not own:
+    if not names and not own and not only:
         with open(os.path.join(BENIGN, 'README.md'), 'w') as f:
             f.write('# Behaviour-preserving changes written by independent sub-agents\n\n'
                     'Each directory holds `patch.diff` (against /repo), `equiv.py` (the author\'s equivalence demonstration: identical output\n'
